@@ -1,1 +1,2 @@
 pub mod bits;
+pub mod svref;
